@@ -19,6 +19,7 @@ type tok struct {
 	kind string
 	bpe  *model.BytePairEncoding
 	spm  *model.SentencePieceModel
+	v    *model.Vocabulary
 	n    int
 }
 
@@ -106,8 +107,8 @@ func main() {
 				return map[string]any{"harness_error": err.Error()}
 			}
 			bpe := model.NewBytePairEncoding(llamaPre, v)
-			toks[c["name"].(string)] = &tok{kind: "bpe", bpe: &bpe, n: len(v.Values)}
-			return map[string]any{"ok": true, "n": len(v.Values), "merges": len(v.Merges)}
+			toks[c["name"].(string)] = &tok{kind: "bpe", bpe: &bpe, v: v, n: len(v.Values)}
+			return map[string]any{"ok": true, "n": len(v.Values), "merges": len(v.Merges), "specials": hx.HexList(v.SpecialVocabulary())}
 		case "vocab":
 			v := &model.Vocabulary{
 				Values: hx.UnhexList(c["values"]),
@@ -117,7 +118,7 @@ func main() {
 				BOS:    int32(hx.Int(c["bos"])), EOS: int32(hx.Int(c["eos"])),
 				AddBOS: b(c["add_bos"]), AddEOS: b(c["add_eos"]),
 			}
-			t := &tok{kind: c["kind"].(string), n: len(v.Values)}
+			t := &tok{kind: c["kind"].(string), v: v, n: len(v.Values)}
 			if t.kind == "bpe" {
 				pre := llamaPre
 				if p, ok := c["pre"].(string); ok && p != "" {
@@ -130,7 +131,24 @@ func main() {
 				t.spm = &spm
 			}
 			toks[c["name"].(string)] = t
-			return map[string]any{"ok": true, "n": len(v.Values)}
+			return map[string]any{"ok": true, "n": len(v.Values), "specials": hx.HexList(v.SpecialVocabulary())}
+		case "vlookup":
+			// what the real Vocabulary answers for strings / merge pairs (used to validate the sparse tables
+			// that props/c20.py hands to the Coq model for the 128k-token vocabulary)
+			t := toks[c["vocab"].(string)]
+			if t == nil {
+				return map[string]any{"harness_error": "unknown vocab"}
+			}
+			ids := []int32{}
+			for _, s := range hx.UnhexList(c["strings"]) {
+				ids = append(ids, t.v.Encode(s))
+			}
+			ranks := []int{}
+			ps := hx.UnhexList(c["pairs"])
+			for i := 0; i+1 < len(ps); i += 2 {
+				ranks = append(ranks, t.v.Merge(ps[i], ps[i+1]))
+			}
+			return map[string]any{"ids": ids, "ranks": ranks}
 		case "enc":
 			t := toks[c["vocab"].(string)]
 			if t == nil {
@@ -184,11 +202,13 @@ func main() {
 			} else {
 				tp = *t.spm
 			}
-			s, err := tp.Decode(i32s(c["ids"]))
-			if err != nil {
-				return map[string]any{"dec_err": err.Error()}
-			}
-			return map[string]any{"dec": hx.Hex(s)}
+			return hx.Guard(func() any {
+				s, err := tp.Decode(i32s(c["ids"]))
+				if err != nil {
+					return map[string]any{"dec_err": err.Error()}
+				}
+				return map[string]any{"dec": hx.Hex(s)}
+			})
 		}
 		return map[string]any{"harness_error": "unknown op"}
 	})
